@@ -167,6 +167,7 @@ pub(crate) fn enter() -> Option<Traced> {
     DEPTH.with(|d| {
         if d.get() == 0 {
             d.set(1);
+            CUTOFFS.with(|c| c.set(0));
             Some(Traced)
         } else {
             None
@@ -225,7 +226,12 @@ pub(crate) fn log(ev: &str, body: String) {
 pub(crate) fn call<T>(ev: &str, ids: String, f: impl FnOnce() -> T, res: impl FnOnce(&T) -> String) -> T {
     match std::panic::catch_unwind(std::panic::AssertUnwindSafe(f)) {
         Ok(r) => {
-            log(ev, format!("{},\"res\":{}", ids, res(&r)));
+            let cut = CUTOFFS.with(|c| c.get());
+            if cut != 0 {
+                log(ev, format!("{},\"cut\":{},\"res\":{}", ids, cut, res(&r)));
+            } else {
+                log(ev, format!("{},\"res\":{}", ids, res(&r)));
+            }
             r
         }
         Err(p) => {
